@@ -454,11 +454,21 @@ func c03Cases(thorough bool) []*depCase {
 			for _, p := range corePos {
 				for i, d1 := range c03Devs {
 					cases = append(cases, &depCase{Pos: p.pos, NTx: p.n, Height: h, Kind: k, Value: 123456, Rate: 20, Cap: 0, Devs: []string{d1}})
-					for _, d2 := range c03Devs[i+1:] {
+					for j, d2 := range c03Devs[i+1:] {
 						if d1[:3] == d2[:3] && d1[:3] != "hdr" {
 							continue // same field
 						}
 						cases = append(cases, &depCase{Pos: p.pos, NTx: p.n, Height: h, Kind: k, Value: 123456, Rate: 20, Cap: 0, Devs: []string{d1, d2}})
+						if !thorough || k != "v0-secp" || h != c03Immature {
+							continue
+						}
+						// deviation bound 3 on the immature-coinbase core
+						for _, d3 := range c03Devs[i+1+j+1:] {
+							if d3[:3] == d2[:3] || d3[:3] == d1[:3] {
+								continue
+							}
+							cases = append(cases, &depCase{Pos: p.pos, NTx: p.n, Height: h, Kind: k, Value: 123456, Rate: 20, Cap: 0, Devs: []string{d1, d2, d3}})
+						}
 					}
 				}
 			}
